@@ -79,6 +79,12 @@ func genC03Big(r *Rng) *Scenario {
 // genC08Big: grid points far outside the enumerated grid.
 func genC08Big(r *Rng, i int) *Scenario {
 	fam := r.Intn(len(c08Families))
+	if r.Bool() {
+		// half of the big cases go to the families that sort or aggregate (they buffer the whole result)
+		for try := 0; try < 20 && !strings.Contains(c08Families[fam], "ordered") && !strings.Contains(c08Families[fam], "aggregate"); try++ {
+			fam = r.Intn(len(c08Families))
+		}
+	}
 	rr := pick(r, []int{4097, 20000, 65535, 65536, 65537, 70000})
 	if strings.HasSuffix(c08Families[fam], "mget") {
 		rr = pick(r, []int{1024, 1100, 2100}) // kvql evaluates IN per row over the whole list: quadratic
